@@ -190,7 +190,10 @@ where
                     let cfg = Config {
                         cases: per as u32,
                         failure_persistence: None,
-                        max_shrink_iters: 4096,
+                        max_shrink_iters: 2048,
+                        // shrinking re-runs the case; bound it so that a failure on a 8000-opcode
+                        // case does not take minutes to report (the verdict does not depend on it)
+                        max_shrink_time: 20_000,
                         max_global_rejects: 1 << 30,
                         max_local_rejects: 1 << 30,
                         ..Config::default()
